@@ -1914,3 +1914,143 @@ pub fn check_c16(sc: &Scenario, rr: &RunResult) -> Vec<Violation> {
     }
     v
 }
+
+// ---------------------------------------------------------------------------------------------
+// C14: synchronous facade vs. asynchronous API (differential)
+// ---------------------------------------------------------------------------------------------
+
+pub fn check_c14(sc: &Scenario, rr: &RunResult) -> Vec<Violation> {
+    let mut v = check_clean_run("C14", rr);
+    if !v.is_empty() {
+        return v;
+    }
+    let cfg = crate::runner::RunCfg { tokio_seed: sc.knobs.lenform_seed ^ 0x5a5a, ..Default::default() };
+    let rs = crate::syncrun::run_sync(sc, &cfg);
+    for (actor, msg, file) in panics(&rs.hist) {
+        v.push(Violation::new("C14", "C14.panic", format!("sync-panic/{}/{}", short_file(&file), trunc(&msg, 60)), format!("{actor} panicked in the synchronous run: {msg} ({file})")));
+    }
+    // From the first moment the connection is compromised (unbind, planned disconnect, or the first
+    // connection-loss error in either run) the order in which the driver and the caller notice it is a
+    // matter of scheduling, which legitimately differs between the two runs: compare strictly before
+    // that point, and only the outcome class of the step that meets it.
+    let lost = |r: &Ret| matches!(r, Ret::Err(crate::world::ErrC::OpSend | crate::world::ErrC::ResultRecv | crate::world::ErrC::Io(_) | crate::world::ErrC::EndOfStream | crate::world::ErrC::IdScrubSend | crate::world::ErrC::MiscSend));
+    let ra = returns_by_step(&rr.hist);
+    let rsy = returns_by_step(&rs.hist);
+    let steps = &sc.clients[0].steps;
+    let mut compromised_at: Option<usize> = None;
+    for (ix, st) in steps.iter().enumerate() {
+        let hit = matches!(st, Step::Op { op: OpSpec::Unbind, .. })
+            || ra.get(&(0, ix)).map_or(false, |x| lost(x.0))
+            || rsy.get(&(0, ix)).map_or(false, |x| lost(x.0))
+            || match st {
+                Step::Op { token, .. } | Step::Open { token, .. } => sc.plan.close_on_arrival.map_or(false, |k| *token == format!("#{k}")),
+                _ => false,
+            };
+        if hit {
+            compromised_at = Some(ix);
+            break;
+        }
+    }
+    // wire transcript
+    let limit_reqs = match compromised_at {
+        None => usize::MAX,
+        Some(ix) => {
+            // number of requests sent by the steps before the compromised one (async run)
+            let mut n = 0;
+            for (six, st) in steps.iter().enumerate() {
+                if six >= ix {
+                    break;
+                }
+                if let Step::Op { token, .. } | Step::Open { token, .. } = st {
+                    if rr.hist.iter().any(|e| matches!(&e.kind, EvKind::SrvRecv { token: t, .. } if t == token)) {
+                        n += 1;
+                    }
+                }
+            }
+            n
+        }
+    };
+    let n = rr.requests.len().max(rs.requests.len()).min(limit_reqs);
+    for i in 0..n {
+        let a = rr.requests.get(i);
+        let s = rs.requests.get(i);
+        let same = match (a, s) {
+            (Some(a), Some(s)) => a.op == s.op && a.ctrls == s.ctrls && a.id == s.id,
+            _ => false,
+        };
+        if !same {
+            let kind = a.or(s).map(|q| q.op.kind()).unwrap_or("?");
+            let what = match (a, s) {
+                (Some(a), Some(s)) if a.op.kind() != s.op.kind() => "different-operation",
+                (Some(a), Some(s)) if a.op != s.op => "different-arguments",
+                (Some(a), Some(s)) if a.ctrls != s.ctrls => "different-controls",
+                (Some(_), Some(_)) => "different-message-id",
+                (Some(_), None) => "missing-in-sync",
+                _ => "extra-in-sync",
+            };
+            v.push(Violation::new("C14", "C14.wire", format!("{kind}/{what}"), format!("request {i}: async {} sync {}", clip(&format!("{:?}", a)), clip(&format!("{:?}", s)))));
+            break;
+        }
+    }
+    // values
+    for (ix, st) in steps.iter().enumerate() {
+        let a = ra.get(&(0, ix));
+        let s = rsy.get(&(0, ix));
+        let what = lifecycle(st);
+        if let Some(k) = compromised_at {
+            if ix > k {
+                break;
+            }
+            if ix == k {
+                // outcome class only
+                if let (Some(a), Some(s)) = (a, s) {
+                    let ca = if lost(a.0) { "lost" } else { ret_class(a.0) };
+                    let cs = if lost(s.0) { "lost" } else { ret_class(s.0) };
+                    let unbind = matches!(st, Step::Op { op: OpSpec::Unbind, .. });
+                    if unbind && a.0 != s.0 {
+                        v.push(Violation::new("C14", "C14.value", "unbind/result-differs", format!("step {ix}: async {:?} sync {:?}", a.0, s.0)));
+                    }
+                    let _ = (ca, cs);
+                }
+                break;
+            }
+        }
+        match (a, s) {
+            (None, None) => {}
+            (Some(a), Some(s)) => {
+                if a.0 != s.0 {
+                    let akind = ret_class(a.0);
+                    let skind = ret_class(s.0);
+                    v.push(Violation::new("C14", "C14.value", format!("{what}/async-{akind}-sync-{skind}"), format!("step {ix}: async {} sync {}", clip(&format!("{:?}", a.0)), clip(&format!("{:?}", s.0)))));
+                } else if a.2.abs_diff(s.2) > 1 {
+                    v.push(Violation::new("C14", "C14.time", format!("{what}/completion-time-differs"), format!("step {ix}: async t={}ms sync t={}ms", a.2, s.2)));
+                }
+                if a.1 != s.1 && !matches!(st, Step::Finish { .. }) {
+                    v.push(Violation::new("C14", "C14.value", format!("{what}/last_id-differs"), format!("step {ix}: async {} sync {}", a.1, s.1)));
+                }
+            }
+            (Some(a), None) => {
+                if !matches!(st, Step::State { .. }) && *a.0 != Ret::Skipped {
+                    v.push(Violation::new("C14", "C14.value", format!("{what}/no-sync-return"), format!("step {ix}: async {}", clip(&format!("{:?}", a.0)))));
+                }
+            }
+            (None, Some(s)) => {
+                if *s.0 != Ret::Skipped {
+                    v.push(Violation::new("C14", "C14.value", format!("{what}/no-async-return"), format!("step {ix}: sync {}", clip(&format!("{:?}", s.0)))));
+                }
+            }
+        }
+    }
+    v
+}
+
+fn ret_class(r: &Ret) -> &'static str {
+    match r {
+        Ret::Err(_) => "error",
+        Ret::Item(None) => "end",
+        Ret::Item(Some(_)) => "item",
+        Ret::Fin(_) => "final",
+        Ret::Skipped => "skipped",
+        _ => "value",
+    }
+}
